@@ -10,14 +10,14 @@ UNITS = [
              ("ok", "r matches Ok(q) ==> parsed(jp_str@) == Some(q) && wf_segments(q.segments@)"),
              ("err", "r is Err ==> parsed(jp_str@) is None"),
          ]),
-    Unit(name="QueryRef::val", file=F, impl=QR, fn="val", order=70, serves=["C01", "C02", "C03"],
+    Unit(name="QueryRef::val", file=F, impl=QR, fn="val", order=70, serves=["C01", "C02", "C03", "C12"],
          ensures=[("def", "r == self.0")]),
-    Unit(name="QueryRef::path", file=F, impl=QR, fn="path", order=70, serves=["C01", "C02", "C03"],
+    Unit(name="QueryRef::path", file=F, impl=QR, fn="path", order=70, serves=["C01", "C02", "C03", "C12"],
          ensures=[("def", "r == self.1")]),
     Unit(name="QueryRef::from_pointer", file=F, impl="impl<'a, T: Queryable> From<Pointer<'a, T>> for QueryRef<'a, T>", fn="from", order=70,
-         serves=["C01", "C02", "C03"], trait_method=True,
+         serves=["C01", "C02", "C03", "C12"], trait_method=True,
          ensures=[("from_spec", "r == QueryRef(pointer.inner, pointer.path)")]),
-    Unit(name="js_path_process", calls=['JpQuery::process'], file=F, fn="js_path_process", order=71, serves=["C01", "C02", "C03", "C08"],
+    Unit(name="js_path_process", calls=['JpQuery::process'], file=F, fn="js_path_process", order=71, serves=["C01", "C02", "C03", "C12", "C08"],
          requires=[("wf", "wf_segments(path.segments@)")],
          ensures=[
              ("ok", "r is Ok"),
@@ -34,14 +34,14 @@ UNITS = [
          # Pointer -> QueryRef goes through std's From/Into contract (FromSpecImpl in helpers.rs);
          # T -> JsonPathError (format!) is the opaque E6 conversion
          text_rewrites=[("E6", "Err(v.into())", "Err(v.vf_into())", 1)]),
-    Unit(name="js_path", file=F, fn="js_path", order=72, serves=["C01", "C02", "C03", "C08"],
+    Unit(name="js_path", file=F, fn="js_path", order=72, serves=["C01", "C02", "C03", "C12", "C08"],
          ensures=[
              ("parse_err", "parsed(path@) is None ==> r is Err"),
              ("eval", "parsed(path@) matches Some(q) ==> r matches Ok(v) && qnodes(v@) == impl_query(q, value)"),
              ("nodes", "parsed(path@) matches Some(q) ==> r matches Ok(v) && ms(qnodes(v@)) == ms(rfc_query(q, value))"),
              ("nodelist", "parsed(path@) matches Some(q) ==> r matches Ok(v) && (segs_exact(q.segments@, true) ==> qnodes(v@) == rfc_query(q, value))"),
          ]),
-    Unit(name="js_path_vals", file=F, fn="js_path_vals", order=72, serves=["C01", "C02", "C03"],
+    Unit(name="js_path_vals", file=F, fn="js_path_vals", order=72, serves=["C01", "C02", "C03", "C12"],
          shapes=[("R2vv", 1)],
          ensures=[
              ("parse_err", "parsed(path@) is None ==> r is Err"),
@@ -51,7 +51,7 @@ UNITS = [
                         "v@.len() == rfc_query(q, value).len() && forall|i: int| 0 <= i < v@.len() ==> #[trigger] v@[i] == rfc_query(q, value)[i].inner)"),
          ],
          closures={1: Cl(expect="r.val()", types=["QueryRef<'a, T>"], ret="(o: &'a T)", ensures=[("def", "o == r.0")])}),
-    Unit(name="js_path_path", file=F, fn="js_path_path", order=72, serves=["C01", "C02", "C03"],
+    Unit(name="js_path_path", file=F, fn="js_path_path", order=72, serves=["C01", "C02", "C03", "C12"],
          shapes=[("R2vv", 1)],
          ensures=[
              ("parse_err", "parsed(path@) is None ==> r is Err"),
